@@ -22,6 +22,15 @@ func (h *hist) quiet(from int64, n int) {
 // at least 26+packets in-order arrivals.  The only other disturbance is a
 // duplicate of the newest packet while no hole is pending, which leaves the
 // window start one ahead of the newest packet and does not touch a precondition.
+//
+// One cluster in ten is "wide" (17..24 numbers).  The property text sets no
+// bound on the burst; DESIGN.md restates liveness conservatively for gaps <= 16.
+// With the window start at the first hole when the cluster begins, the first
+// arrival after a cluster of span S finds the start at most S <= 24 < 32 behind,
+// so nothing leaves the 32 packet window unreported and correct code names every
+// hole within 2*(packets+1) <= 26+packets further arrivals.  Wide clusters are
+// what makes a request window wider than the 17 numbers one NACK pair can carry
+// observable.  Their violations carry their own key (.../span17-24).
 func runSteady(run *vk.Run, idx uint64) *hist {
 	h := newHist(run, famSteady, 1, idx)
 	r := h.r
@@ -35,11 +44,18 @@ func runSteady(run *vk.Run, idx uint64) *hist {
 			base := h.newest + 1
 			var span int
 			var mask uint32 // bit i: base+i is lost
-			switch y := r.IntN(10); {
-			case y < 4:
+			switch y := r.IntN(20); {
+			case y < 7:
 				span, mask = 1, 1
 				h.classes |= clSingle
-			case y < 7:
+			case y < 9: // wide cluster, 17..24 numbers: see the comment on runSteady
+				span = 17 + r.IntN(8)
+				mask = 1<<span - 1
+				if r.IntN(2) == 0 {
+					mask = r.Uint32()&(1<<span-1) | 1 | 1<<(span-1)
+				}
+				h.classes |= clWide
+			case y < 14:
 				span = 2 + r.IntN(15)
 				if r.IntN(3) == 0 {
 					span = []int{2, 15, 16}[r.IntN(3)]
@@ -59,6 +75,7 @@ func runSteady(run *vk.Run, idx uint64) *hist {
 			for i := 0; i < span && !h.failed; i++ {
 				if mask&(1<<i) != 0 {
 					h.lost = append(h.lost, base+int64(i))
+					h.lostWide = append(h.lostWide, span > 16)
 				} else {
 					h.arrive(base + int64(i))
 				}
@@ -144,10 +161,6 @@ func runHostile(run *vk.Run, idx uint64) *hist {
 			h.classes |= clLate
 			h.disturb("late")
 			h.arrive(h.newest - int64(l))
-			if l == 256 {
-				h.classes |= clLate256
-				h.late256At = h.step
-			}
 		case x < 96: // forward jump, not a restart
 			var f int
 			switch y := r.IntN(10); {
@@ -188,9 +201,13 @@ func (h *hist) finish() {
 	run.Count("histories_"+h.family, 1)
 	run.Count("nacks", int64(h.nacks))
 	run.Count("seqnos_named", int64(h.namedCnt))
+	run.Eval(int64(h.step))
 	run.Count("stats_samples", int64(h.samples))
+	run.Count("stats_samples_with_loss", int64(h.lossSamples))
+	run.Count("eseqno_checked_across_wrap", int64(h.wrapChecks))
 	if h.family == famSteady {
 		run.Count("steady_lost_nacked", int64(h.lostNacked))
+		run.Count("steady_wide_lost_nacked", int64(h.wideNacked))
 	}
 	if h.wraps > 0 {
 		run.Count("histories_with_wrap", 1)
@@ -218,9 +235,9 @@ func (h *hist) finish() {
 }
 
 // checkToBitmap: iterating ToBitmap over a sorted list must reproduce the list.
-func checkToBitmap(run *vk.Run, idx uint64) {
+func checkToBitmap(run *vk.Run, idx uint64, st *tbStats) {
 	r := run.Rand(3, idx)
-	run.Eval(1)
+	st.evals++
 	n := 1 + r.IntN(40)
 	maxGap := []int{1, 2, 3, 15, 16, 17, 18, 40}[r.IntN(8)]
 	cur := uint16(r.UintN(65536))
@@ -285,12 +302,23 @@ func checkToBitmap(run *vk.Run, idx uint64) {
 			return
 		}
 	}
-	run.Count("tobitmap_lists", 1)
-	run.Count("tobitmap_pairs", int64(pairs))
+	st.lists++
+	st.pairs += int64(pairs)
 	if pairs > 1 {
-		run.Count("tobitmap_multi_pair_lists", 1)
+		st.multi++
 	}
 	if wrap {
-		run.Count("tobitmap_wrapping_lists", 1)
+		st.wrapping++
 	}
+}
+
+// tbStats accumulates ToBitmap coverage for one chunk of lists.
+type tbStats struct{ evals, lists, pairs, multi, wrapping int64 }
+
+func (st *tbStats) book(run *vk.Run) {
+	run.Eval(st.evals)
+	run.Count("tobitmap_lists", st.lists)
+	run.Count("tobitmap_pairs", st.pairs)
+	run.Count("tobitmap_multi_pair_lists", st.multi)
+	run.Count("tobitmap_wrapping_lists", st.wrapping)
 }
